@@ -200,8 +200,16 @@ func c15build(c *xplore.Ctx, pws []string) c15case {
 		out.pws = append(out.pws, "zqq")
 		out.feats = append(out.feats, "followed-by-set-password-no-space")
 	}
+	// what follows the last statement up to the end of the text: nothing, or a comment that the end of the text
+	// closes (no line break behind it), an unterminated block comment, separators
+	if k := c.Choose(1 + len(c15tails)); k > 0 {
+		out.text += c15tails[k-1]
+		out.feats = append(out.feats, "tail="+c15tails[k-1])
+	}
 	return out
 }
+
+var c15tails = []string{" -- c", " --", "; -- c", ";--c", " /* c */", " /* c", "\n", ";", " ;; ", "\n-- c\r"}
 
 // c15marker is whatever Sanitize puts in place of a password literal. The property does not fix its spelling, only
 // that nothing else changes and that no fragment of the password remains; it is read off the simplest statement.
@@ -511,7 +519,7 @@ func c15checkUnchanged(t string) []ev.Finding {
 	// followed by a password statement in the same text: whatever the statement in front contains (regex literals
 	// with quotes, divisions, wildcards, casts, strings with slashes), the literal behind it is redacted and nothing
 	// else changes
-	for _, tail := range []string{"; SET PASSWORD FOR u0 = 'zq'", ";\nCREATE USER u0 WITH PASSWORD 'z/q' WITH ALL PRIVILEGES"} {
+	for _, tail := range []string{"; SET PASSWORD FOR u0 = 'zq'", ";\nCREATE USER u0 WITH PASSWORD 'z/q' WITH ALL PRIVILEGES", "; SET PASSWORD FOR u0 = 'z/q'", "; CREATE USER u0 WITH PASSWORD 'z/*q'"} {
 		full := t + tail
 		q, err := influxql.ParseQuery(full)
 		if err != nil || len(q.Statements) < 2 {
@@ -582,6 +590,13 @@ func c15run(r *ev.Run) {
 	}
 	// texts without a password clause come back identical
 	texts := append([]string{}, c15unchanged...)
+	// a slash after every kind of operand ending (a division, never the start of a regex), glued and spaced, as a field
+	// and in a condition: together with the tails of c15checkUnchanged, whose passwords contain slashes
+	for _, x := range []string{"1", "1.", "1.5", ".5", "1.0", "1h", "x", "x1", `"q"`, `"q 1."`, "'s'", "'1.'", "(x)", "x::float", "x::integer", "*", "true", "x.y", "x.\"y\"", "f()", "f(1.)", "now()"} {
+		for _, sp := range []string{"/", " / ", "/ ", " /"} {
+			texts = append(texts, "SELECT "+x+sp+"2 FROM m", "SELECT a FROM m WHERE b = "+x+sp+"2", "SELECT a FROM m WHERE "+x+sp+"2 > 1 AND c =~ /r/")
+		}
+	}
 	ex2 := &xplore.Explorer{Bounds: []int{2, 0, 1}, Workers: r.Workers, Deadline: deadlineFor(r.Tier), Body: func(c *xplore.Ctx) {
 		g := gram.New(c)
 		spec := gram.Statement(g)
